@@ -234,6 +234,8 @@ class Walker:
         if shell is None or 'body' not in shell:
             return None, T
         body_owner = shell
+        if _COVER is not None:
+            _COVER.add(fn_path)
         frame = Frame(fn_path, shell)
         # async fn: parameters live in the shell, the code in {closure#0}
         params = shell.get('params', [])
@@ -1134,6 +1136,16 @@ def _is_coll_type(ty):
     t = _base_ty(ty)
     return _is_map_type(ty) or _is_set_type(ty) or t.startswith(('std::vec::Vec<', '[')) or t == 'str' \
         or t.startswith('std::string::String')
+
+
+import atexit as _atexit
+import os as _os
+_COVER = set() if _os.environ.get('VERIF_COVERAGE') else None
+if _COVER is not None:
+    def _dump_cover():
+        with open(_os.environ['VERIF_COVERAGE'], 'a') as f:
+            f.write('\n'.join(sorted(_COVER)) + '\n')
+    _atexit.register(_dump_cover)
 
 
 def analyse(prog, fn_path, inline=(), args=None, max_depth=3, inline_pred=None):
